@@ -202,3 +202,10 @@ def run(ctx: core.Ctx) -> None:
     cases.sort(key=lambda c: (c["fn"], c["dtype"], c["layout"], c["n"], c["sides"]))
     replay_cases(ctx, cases, n_inst=6 if ctx.quick else 256)
     shuffled_stage(ctx, cases, n_inst=6 if ctx.quick else 256)
+
+    # per-call statement of the property under concurrent use (Reentrant.tla): the same calls from several threads at once
+    from ..drivers import threads  # noqa: PLC0415
+
+    threads.clause(ctx, ['oil_water', 'facade'])
+
+
